@@ -343,6 +343,37 @@ def gen_ext_props(repo):
     return m
 
 
+def gen_units(repo):
+    """T15: units / x_units / y_units / channel_name as views of the extended properties, and the constructors' units rule"""
+    ast = T.ast
+    keys = {}
+    for path in ("waveform/_extended_properties.py", "xy_data.py"):
+        tree = ast.parse(open(f"{repo}/src/nitypes/{path}").read())
+        for n in tree.body:
+            if isinstance(n, ast.Assign) and len(n.targets) == 1 and isinstance(n.targets[0], ast.Name) and isinstance(n.value, ast.Constant) \
+                    and isinstance(n.value.value, str) and n.value.value.startswith("NI_"):
+                keys[n.targets[0].id] = n.value.value
+    m = T.Module(f"{repo}/src/nitypes/scalar.py", "Gen.Units")
+    m.extra_imports = ["NiVerif.Model.Units"]
+    m.out.append("/-- the property keys (module constants of _extended_properties.py and xy_data.py) -/")
+    for k, v in sorted(keys.items()):
+        m.out.append(f"@[pygen] def key_{k.strip('_')} : Model.Units.Str := [" + ", ".join(str(ord(c)) for c in v) + f"]   -- {v!r}")
+    m.out.append("")
+    plan = [("scalar.py", "Scalar", ["units"], ["units"]), ("vector.py", "Vector", ["units"], ["units"]),
+            ("xy_data.py", "XYData", ["x_units", "y_units"], ["x_units", "y_units"]),
+            ("waveform/_numeric.py", "NumericWaveform", ["units", "channel_name"], []),
+            ("waveform/_spectrum.py", "Spectrum", ["units", "channel_name"], []),
+            ("waveform/_digital/_waveform.py", "DigitalWaveform", ["channel_name"], [])]
+    for path, cls, attrs, ctor_args in plan:
+        m2 = T.Module(f"{repo}/src/nitypes/{path}", "Gen.Units")
+        for a in attrs:
+            m2.translate_property_view(cls, a, f"{cls}_{a}", keys)
+        for a in ctor_args:
+            m2.translate_units_ctor_rule(cls, a, f"{cls}_ctor_{a}", keys)
+        m.out += m2.out
+    return m
+
+
 MODULES = [
     # (output file, builder, dependencies by output name)
     ("TimeValueTuple", lambda repo, deps: gen_time_value_tuple(repo), []),
@@ -364,6 +395,7 @@ MODULES = [
     ("Args", lambda repo, deps: gen_args(repo), []),
     ("Vector", lambda repo, deps: gen_vector(repo), []),
     ("ExtProps", lambda repo, deps: gen_ext_props(repo), []),
+    ("Units", lambda repo, deps: gen_units(repo), []),
 ]
 
 
